@@ -676,10 +676,14 @@ TLOCK_ROLE = []
 def new_sched(pe, ru):
     global S
     S = Sched()
-    S.local_names = [(pe, "_global_shutdown"), (pe, "_threads_wakeups"), (pe, "_CURRENT_DEPTH"),
+    import loky.backend.reduction as lr
+    if not hasattr(new_sched, "_pick0"):
+        new_sched._pick0 = (lr._LokyPickler, lr._loky_pickler_name)
+    S.local_names = [(lr, "_LokyPickler"), (lr, "_loky_pickler_name"), (pe, "_global_shutdown"), (pe, "_threads_wakeups"), (pe, "_CURRENT_DEPTH"),
                      (pe, "process_pool_executor_at_exit"), (pe, "_global_shutdown_lock"),
                      (ru, "_executor"), (ru, "_executor_kwargs"), (ru, "_next_executor_id"), (ru, "_executor_lock")]
-    S.fresh = {(pe, "_global_shutdown"): lambda: False,
+    S.fresh = {(lr, "_LokyPickler"): lambda: new_sched._pick0[0], (lr, "_loky_pickler_name"): lambda: new_sched._pick0[1],
+               (pe, "_global_shutdown"): lambda: False,
                (pe, "_threads_wakeups"): weakref.WeakKeyDictionary,
                (pe, "_CURRENT_DEPTH"): lambda: 0,
                (pe, "process_pool_executor_at_exit"): lambda: 1,      # never register a real atexit hook
